@@ -503,6 +503,9 @@ func recordC01(env *Env) {
 		var all []so
 		byClass := map[string][]so{}
 		for _, s := range shapes[1:] {
+			if s.k == c01LongShape(shapes) {
+				continue // the long record is a filler too: its 5 000 offsets are not boundary targets
+			}
 			for o := 0; o < len(s.text); o++ {
 				all = append(all, so{s.k, o})
 				cl := s.tags[o:o+1] + "."
